@@ -522,7 +522,7 @@ static void DisasmIterator(OneChunk const* pChunk, Boolean IsData, void* pUser) 
     HexString(NumString, sizeof(NumString), Address, 0);
     fprintf(pData->pDestFile, "\n");
     PrTabs(pData->pDestFile, pData->MaxLabelLen, 0);
-    fprintf(pData->pDestFile, "org\t$%s\n", NumString);
+    fprintf(pData->pDestFile, "org\t%lu\t; $%s\n", (unsigned long)Address, NumString);
     while (Address < pChunk->Start + pChunk->Length) {
         pLabel = LookupInvSymbol(Address);
         if (pLabel && !strncmp(pLabel, "Vector_", 7) && IsData) {
